@@ -4,6 +4,7 @@ import (
 	"encoding/hex"
 	"math/big"
 	"strings"
+	"time"
 
 	bridgetypes "github.com/tellor-io/layer/x/bridge/types"
 	disputetypes "github.com/tellor-io/layer/x/dispute/types"
@@ -33,6 +34,11 @@ type C03Monitor struct {
 	s1Minter    minttypes.Minter
 	s1TBR, s1FC math.Int
 	pendingBurn math.Int // Σ BurnAmount of disputes that may execute in this BeginBlock
+	// actual time of the previous block, valid when the minter was already initialised at that block's BeginBlock
+	// (then that block recorded its own time as the start of the next mint interval)
+	lastBlockTime  time.Time
+	lastBlockInit  bool
+	mintStartExact time.Time
 }
 
 func NewC03Monitor(st *Stats) *C03Monitor {
@@ -71,6 +77,16 @@ func (m *C03Monitor) BeginBlockExit(c *Chain, ctx sdk.Context, err error) {
 	gapClass := "none"
 	if m.s1Minter.Initialized && m.s1Minter.PreviousBlockTime != nil {
 		dms := ctx.BlockTime().Sub(*m.s1Minter.PreviousBlockTime).Milliseconds()
+		if m.lastBlockInit {
+			// the statement's "elapsed milliseconds" are those since the previous block: measured on the real block
+			// times, not on what the module stored as previous block time
+			real := ctx.BlockTime().Sub(m.lastBlockTime).Milliseconds()
+			m.st.Bucket("c03|mint-interval|submillisecond-part=%v|stored-prev-equals-real=%v", ctx.BlockTime().Nanosecond()%1_000_000 != 0 || m.lastBlockTime.Nanosecond()%1_000_000 != 0, real == dms)
+			if real != dms {
+				c.Violate("C03", "c03", "mint-interval-not-elapsed-milliseconds-since-previous-block", map[string]interface{}{"stored_previous": m.s1Minter.PreviousBlockTime.String(), "real_previous": m.lastBlockTime.String(), "now": ctx.BlockTime().String()})
+			}
+			dms = real
+		}
 		// floor(146 940 000 * dms / 86 400 000), big-integer arithmetic
 		x := new(big.Int).Mul(big.NewInt(146_940_000), big.NewInt(dms))
 		x.Quo(x, big.NewInt(86_400_000))
@@ -117,6 +133,7 @@ func (m *C03Monitor) BeginBlockExit(c *Chain, ctx sdk.Context, err error) {
 		}
 	}
 	m.prev = s
+	m.lastBlockTime, m.lastBlockInit = ctx.BlockTime(), m.s1Minter.Initialized && !ctx.BlockTime().IsZero()
 }
 
 // DecodeDepositAmount reads (address,string,uint256 amount,uint256 tip) independently of the chain's decoder.
@@ -307,6 +324,16 @@ func (m *C04Monitor) AfterTx(c *Chain, ctx sdk.Context, tx sdk.Tx, ok bool) {
 		case *disputetypes.MsgAddFeeToDispute:
 			if x.PayFromBond {
 				m.fromBond++
+			}
+		case *disputetypes.MsgWithdrawFeeRefund:
+			// only sub-unit dust may be taken out of dispute escrow by burning: a refund burns the whole units of the
+			// accumulated dust, so at least one whole unit of "dust" left behind means units were burned (now or
+			// later) that are owed to somebody
+			if dust, err := c.App.DisputeKeeper.Dust.Get(ctx); err == nil {
+				m.st.Count("c04.dust.evals")
+				if dust.GTE(math.NewInt(1_000_000)) || dust.IsNegative() {
+					c.Violate("C04", "c04", "dispute-escrow-dust-store-holds-whole-units-after-refund", map[string]interface{}{"id": x.Id, "dust_millionths": dust.String()})
+				}
 			}
 		}
 	}
